@@ -447,7 +447,7 @@ def C19NamesStatement (tc : TCfg) (m : NameMode) : Prop :=
     ∃ v', storageLoad ((nrun tc m (.init cls) ops).tree.view (resolve m n)) = .ok cls v' ∧
       (v' = v ∨ v' ∈ (promiseN n .init ops).inflight)
 
-/-- when the storage APPENDS its extension to the name it is given, every name has its own files: the statement holds
+/-- the tree as it is (since `84ba7a5`) APPENDS its extension to the name it is given, so every name has its own files: the statement holds
 for every interleaving of saves (failing, interrupted anywhere), loads and deletes under the two names -/
 theorem C19_names_durable (sw climb : Bool) : C19NamesStatement ⟨⟨.atomicReplace, sw⟩, climb⟩ .append := by
   intro cls ops n v hv
@@ -462,7 +462,8 @@ theorem C19_names_frame (tc : TCfg) (w : TWorld) (n n' : Name) (op : Op) (h : n'
   apply tstep_frame
   cases n <;> cases n' <;> simp_all [nameOp, resolve, TOp.touches]
 
-/-- with `Path.with_suffix` (the text after the last dot is REPLACED) `relax.v2` and `relax` are one file: a save under
+/-- before `84ba7a5` (finding KF-C19-7): with `Path.with_suffix` (the text after the last dot is REPLACED) `relax.v2` and
+`relax` are one file: a save under
 the neighbouring name is what the next load of the first name returns, and deleting one name deletes the other -/
 theorem C19_names_collide_witness : ¬ C19NamesStatement TCfg.current .replaceTail := by
   intro h
